@@ -37,7 +37,7 @@ ASSUMPTIONS = [
     "plain asyncio tasks are joined before the block that created them is left (ctx.spawn from a task that outlived its scope is unspecified)",
     "gates stand for external events; the ready queue below them is FIFO",
 ]
-MINIMUMS = {"monitor:task-state": 100000, "monitor:resource-initialiser-state": 1000, "resource_releases_with_own_blocks": 10, "conflicting_probes": 2000, "set:schedules": 2000, "tasks_spawned_ctx": 300, "tasks_spawned_asyncio": 300}
+MINIMUMS = {"monitor:task-state": 100000, "monitor:resource-initialiser-state": 1000, "resource_releases_with_own_blocks": 10, "conflicting_probes": 2000, "set:schedules": 2000, "tasks_spawned_ctx": 300, "tasks_spawned_asyncio": 300, "programs_through_the_cache_helper": 8}
 JOBS = {"quick": 4, "thorough": 16}
 LEVEL_TEXT = (
     "Programs of 2-4 tasks (half started with ctx.spawn, half with asyncio.create_task, at different depths, while the parent keeps entering/leaving blocks) are run under many "
@@ -270,8 +270,36 @@ def timeout_programs():  # noqa: ANN201
                 yield [probe(), root, probe()], 1
 
 
+def cached_call_programs():  # noqa: ANN201
+    """a function called through the async cache (a key of its own per call: nothing shared) is a task started where the call is made:
+    in a child with updates of its own, while the parent - the owner of the task group - enters and leaves updates of its own"""
+    for via in ("cached", "cached-method"):
+        for child_via in ("ctx", "asyncio"):
+            for own_kind in ("updated", "sscope"):
+                pid = itertools.count(1)
+                n = itertools.count(1)
+
+                def call() -> dict[str, Any]:
+                    return {"op": "spawn", "via": via, "name": f"call{next(n)}", "body": [{"op": "probe", "id": next(pid)}]}
+
+                def probe() -> dict[str, Any]:
+                    return {"op": "probe", "id": next(pid)}
+
+                own = {"op": "block", "kind": own_kind, "name": "c.own", "supply": [["R1", 2], ["D1", 20]], "body": [call(), {"op": "gate", "label": "c.g1"}, call(), probe()]}
+                child = {"op": "spawn", "via": child_via, "name": "c", "body": [call(), own, {"op": "gate", "label": "c.g2"}, call(), probe()]}
+                pown = {"op": "block", "kind": "updated", "name": "p.own", "supply": [["R1", 3], ["D2", 30]], "body": [call(), {"op": "gate", "label": "p.g2"}, call(), probe()]}
+                body = [probe(), child, {"op": "gate", "label": "p.g1"}, pown, {"op": "gate", "label": "p.g3"}, call(), probe()]
+                if child_via == "asyncio":
+                    body.append({"op": "join", "names": ["c"]})
+                root = {"op": "block", "kind": "ascope", "name": "root", "supply": [["R1", 1], ["D2", 10]], "body": body}
+                yield [probe(), root, probe()], 2
+
+
 def run(R: Recorder, tier: str, seed: int, shard: int, nshards: int) -> None:
     nprog, cap, nrandom = PROGRAMS[tier]
+    if shard == 1 % nshards:
+        explore(R, cached_call_programs(), random.Random(f"C03/{seed}/cached"), cap, nrandom)
+        R.count("programs_through_the_cache_helper", 8)
     if shard == 0:
         explore(R, ((p, 1) for p in rollback_programs()), random.Random(f"C03/{seed}/rollback"), cap, nrandom)
         explore(R, timeout_programs(), random.Random(f"C03/{seed}/timeout"), cap, nrandom)
